@@ -2,7 +2,8 @@ from _common import COMMON_NOTE
 
 META = {
  'title': 'Port addresses reach the right device under Spectrum partial decoding',
- 'lean_modules': ['ZxVerif.Props.C07'],
+ 'lean_modules': ['ZxVerif.Props.C07', 'ZxVerif.Props.C07X'],
+ 'extract': ['Ports'],
  'modelled_code': ['rustzx-core/src/zx/controller.rs (the device-selection chains of read_io and write_io, floating_bus_value)',
                    'rustzx-core/src/utils/screen.rs (bitmap_line_addr)', 'rustzx-core/src/host/mod.rs (IoExtender contract)'],
  'assumptions': ['the host extender is an arbitrary predicate on the port address (a Bool per port in the model; mask/value predicates in the correspondence)',
@@ -10,7 +11,7 @@ META = {
                  'floating bus: the spec admits any display/attribute byte while the ULA fetches (the property does not fix which); the model is compared exactly',
                  'keyboard row AND and EAR bit are C17'],
  'design_ref': 'DESIGN.md section 8, C07',
- 'technique': 'Lean 4 proof: bv_decide over all 65536 ports x all device configurations for the decode chains vs. the per-device select predicates; tied to the code by an exhaustive port sweep',
- 'level_text': 'Theorems in Lean 4 quantified over every 16-bit port and every configuration (bv_decide): whenever exactly one device (or none) is selected the code\'s decode chain routes the access to it and to no other; the extender sees exactly its ports; paging only on the 128K; floating bus idle outside the fetch windows and a display/attribute address inside. Tied to the Rust code on every run by executing all 65536 ports x read/write x 2 machines x kempston/mouse/extender configurations through the real read_io/write_io and the floating bus at every T-state of a frame.',
+ 'technique': 'Lean 4 proof: bv_decide over all 65536 ports x all device configurations for the decode chains vs. the per-device select predicates; tied to the code by an exhaustive port sweep and by a branch-by-branch translation of the decode chains of read_io/write_io into Lean on every run',
+ 'level_text': 'Theorems in Lean 4 quantified over every 16-bit port and every configuration (bv_decide): whenever exactly one device (or none) is selected the code\'s decode chain routes the access to it and to no other; the extender sees exactly its ports; paging only on the 128K; floating bus idle outside the fetch windows and a display/attribute address inside. Tied to the Rust code on every run by executing all 65536 ports x read/write x 2 machines x kempston/mouse/extender configurations through the real read_io/write_io and the floating bus at every T-state of a frame; in addition the two if/else-if chains are translated branch by branch from the source text on every run (tools/extract.py, table Ports) and proved equal to the model\'s decode for every port and configuration (Props/C07X).',
  'level_note': COMMON_NOTE + ' bv_decide carries the port-decoding theorems (its native axioms are listed per theorem in the evidence).',
 }
